@@ -2,7 +2,7 @@
 # usage: seedtest2.sh <prop> <worktree> <variant a|b> <check-prop>...
 # round-2 seeded changes: <worktree>/MUTANT/<variant>/{patch.diff,run_demo.sh,meta.json,...}
 prop=$1; wt=$2; v=$3; shift 3
-id=${prop}-2$v
+id=${prop}-${ROUND:-2}$v
 export GOFLAGS=-mod=mod GOPROXY=off GOSUMDB=off GOTOOLCHAIN=local
 M=$wt/MUTANT/$v
 [ -f $M/patch.diff ] || { echo "$id: no patch in $M"; exit 2; }
